@@ -30,7 +30,27 @@ No interpretation happens here except:
     becomes `x, %r = meth!:m(x, args); t = %r`: the callee "meth!:m" (given by specification in the template)
     returns the receiver's new state and the result.  `if c in x.m(args):` with a constant c is first hoisted
     to `x, %t = meth!:m(x, args); if c in %t:` (the call is the first thing the test evaluates).  A method call
-    on such an object anywhere else in an expression is outside the fragment."""
+    on such an object anywhere else in an expression is outside the fragment.
+  * `h.m(args)` where m changes the state of its receiver (STATEFUL_METHODS: `readline` of a file ...) and h
+    is a parameter becomes the statement `SCallSt "$k" h "meth:m" args` (the specification of m returns the
+    result and the new state of h; h is rebound) placed BEFORE the statement it occurs in, and the call is
+    replaced by the temporary `$k`.  Hoisting is admitted only when the call is the first thing the statement
+    evaluates (so that nothing is reordered), at most once per statement, never inside a part that may run
+    zero or several times; and h may occur in the function ONLY as the receiver of such calls (no alias).
+  * `yield e` as a statement becomes SYield (the function is then run with run_gen: the list of yielded values).
+  * `E.shuffle(x)` as a statement (MUTATING_ARG_METHODS: the method changes its ARGUMENT in place) becomes
+    `x = E.shuffle(x)` - the specification of the method returns the new contents - admitted, like the
+    other mutations, only for a provably fresh un-escaped x.
+  * `warnings.warn(...)` as a statement (EFFECT_CALLS) becomes SLog: the call is recorded in a log.
+  * `try: A except C: B` becomes STry A B, whose handler runs in the environment the statement started in
+    and catches every exception.  Admitted only when (i) A consists of plain assignments / return / raise
+    (no mutation, no yield), (ii) B reads no name that A assigns, (iii) a name that A assigns and B does
+    not assign (unconditionally) is read nowhere outside A.  The class C is recorded in `catches_<f>`; that
+    A raises nothing but C must be argued in the template.
+  * `x.ravel()[:] = e` (filling a fresh array through its flat view) becomes `x = fill_flat(x, e)`, the
+    specification of "fill_flat" being the array of x's shape holding the items of e in C order; admitted
+    only for a provably fresh, un-escaped array x (np.empty(...) is C-contiguous, so ravel() is a view).
+  * `a[:, k]` becomes the builtin "index[:,]"."""
 import ast
 import os
 from fractions import Fraction
@@ -65,6 +85,8 @@ def const(v):
 
 BIN = {ast.Add: "Add", ast.Sub: "Sub", ast.Mult: "Mul", ast.Div: "Div", ast.FloorDiv: "FloorDiv", ast.Mod: "Mod",
        ast.Pow: "Pow"}
+# module attributes used as opaque constants (passed on to library functions, never computed with)
+MODULE_CONSTS = {"np.inf": "<np.inf>"}
 CMP = {ast.Lt: "CLt", ast.LtE: "CLe", ast.Gt: "CGt", ast.GtE: "CGe", ast.Eq: "CEq", ast.NotEq: "CNe"}
 
 
@@ -88,6 +110,55 @@ def is_int_const(node):
         return False
 
 
+# methods that change the state of their receiver (see the module docstring)
+STATEFUL_METHODS = {"readline"}
+
+
+def first_evaluated(node):
+    """the sub-expression of `node` that Python evaluates first (None: a leaf / unknown form)"""
+    if isinstance(node, ast.Call):
+        if isinstance(node.func, ast.Attribute):
+            return node.func.value              # the receiver of a method call / the module of np.f
+        if node.args:
+            return node.args[0]
+        return None
+    if isinstance(node, ast.Attribute):
+        return node.value
+    if isinstance(node, ast.BinOp):
+        return node.left
+    if isinstance(node, ast.Compare):
+        return node.left
+    if isinstance(node, ast.Subscript):
+        return node.value
+    if isinstance(node, ast.UnaryOp):
+        return node.operand
+    if isinstance(node, (ast.Tuple, ast.List)):
+        return node.elts[0] if node.elts else None
+    if isinstance(node, (ast.ListComp, ast.GeneratorExp)):
+        return node.generators[0].iter
+    if isinstance(node, ast.Starred):
+        return node.value
+    return None
+
+
+# functions that change the state of their (single, plain name) argument: next(generator)
+STATEFUL_FUNCS = {"next"}
+
+
+def is_stateful_call(node):
+    if (isinstance(node, ast.Call) and isinstance(node.func, ast.Name) and node.func.id in STATEFUL_FUNCS
+            and len(node.args) == 1 and isinstance(node.args[0], ast.Name) and not node.keywords):
+        return True
+    return (isinstance(node, ast.Call) and isinstance(node.func, ast.Attribute)
+            and node.func.attr in STATEFUL_METHODS)
+
+
+# methods that change their (single) argument in place; calls made for their effect on the world
+MUTATING_ARG_METHODS = {"shuffle"}
+EFFECT_CALLS = {"warnings.warn"}
+# builtin classes used as values (warnings.warn(msg, UserWarning))
+CLASS_NAMES = ("UserWarning", "FutureWarning", "DeprecationWarning", "RuntimeWarning")
+
 TYPE_NAMES = ("bool", "int", "float")
 DTYPE_CONSTS = ("np.float32", "np.float64", "np.int32", "np.int64")    # module attributes admitted as opaque constants
 FUNC_NAMES = ("sum", "len", "abs", "min", "max")
@@ -97,6 +168,10 @@ class Translator:
     def __init__(self, modules):
         self.modules = set(modules)     # names bound by import statements of the file
         self.locals = set()             # names bound in the function being translated
+        self.handles = set()            # parameters whose state is changed by hoisted method calls
+        self.ntemp = 0
+        self.catches = []               # the classes of the except clauses, in source order
+        self.is_generator = False
         self.iterated = set()           # ids of the expressions that are only iterated (for / comprehension / tuple(..))
 
     def dotted(self, node):
@@ -139,6 +214,9 @@ class Translator:
     def call(self, e, mut=False):
         f = e.func
         pos = list(e.args)
+        if is_stateful_call(e):
+            raise Unsupported("state-changing call %s not in the first-evaluated position of its statement"
+                              % ast.dump(e.func)[:60])
         if any(k.arg is None for k in e.keywords):
             raise Unsupported("** in call")
         if any(isinstance(a, ast.Starred) for a in pos):
@@ -232,6 +310,8 @@ class Translator:
                 raise Unsupported("module %s used as a value" % e.id)
             if e.id in TYPE_NAMES and e.id not in self.locals:
                 return "(EConst (VS %s))" % cstr("<type:%s>" % e.id)    # a type object used as a value (dtype=bool)
+            if e.id in CLASS_NAMES and e.id not in self.locals:
+                return "(EConst (VS %s))" % cstr("<class:%s>" % e.id)
             return "(EVar %s)" % cstr(e.id)
         if isinstance(e, ast.Constant):
             return const(e.value)
@@ -277,6 +357,8 @@ class Translator:
         if isinstance(e, ast.Call):
             return self.call(e)
         if isinstance(e, ast.Attribute):
+            if self.dotted(e) in MODULE_CONSTS:
+                return "(EConst (VS %s))" % cstr(MODULE_CONSTS[self.dotted(e)])
             if self.dotted(e) in DTYPE_CONSTS:
                 return "(EConst (VS %s))" % cstr("<%s>" % self.dotted(e))
             if self.dotted(e) is not None:
@@ -299,11 +381,127 @@ class Translator:
                     return "(ESliceFrom %s %s)" % (expr(e.value), cZ(int_const(sl.lower)))
                 raise Unsupported("slice form")
             if isinstance(sl, ast.Tuple):
+                if (len(sl.elts) == 2 and isinstance(sl.elts[0], ast.Slice) and sl.elts[0].lower is None
+                        and sl.elts[0].upper is None and sl.elts[0].step is None
+                        and not isinstance(sl.elts[1], ast.Slice)):
+                    return "(ECall %s %s)" % (cstr("index[:,]"), lst([expr(e.value), expr(sl.elts[1])]))
                 raise Unsupported("multi-dimensional index")
             if is_int_const(sl) and int_const(sl) >= 0:
                 return "(EIndex %s %s)" % (expr(e.value), cZ(int_const(sl)))
             return "(EIdx %s %s)" % (expr(e.value), expr(sl))
         raise Unsupported(ast.dump(e)[:200])
+
+    def hoist(self, owner, field):
+        """If the expression owner.field starts (in evaluation order) with a state-changing method call on a
+        plain name, replace that call by a temporary and return the SCallSt statement to run before; else []."""
+        root = getattr(owner, field)
+        if root is None:
+            return []
+        parent, pfield, pidx, node = owner, field, None, root
+        while node is not None and not is_stateful_call(node):
+            nxt = first_evaluated(node)
+            if nxt is None:
+                return []
+            # locate nxt among node's fields so that it can be replaced
+            found = None
+            for fname, value in ast.iter_fields(node):
+                if value is nxt:
+                    found = (fname, None)
+                elif isinstance(value, list):
+                    for i, v in enumerate(value):
+                        if v is nxt:
+                            found = (fname, i)
+                        elif isinstance(v, ast.comprehension) and v.iter is nxt:
+                            parent, pfield, pidx = v, "iter", None
+                            found = "done"
+                elif isinstance(value, ast.Attribute) and value.value is nxt:      # receiver of a method call
+                    parent, pfield, pidx = value, "value", None
+                    found = "done"
+            if found is None:
+                return []
+            if found != "done":
+                parent, pfield, pidx = node, found[0], found[1]
+            node = nxt
+        if node is None:
+            return []
+        call = node
+        if isinstance(call.func, ast.Name):          # next(h)
+            recv, fname, cargs = call.args[0], call.func.id, []
+            if call.func.id in self.locals:
+                raise Unsupported("%s is rebound in the function" % call.func.id)
+        else:
+            recv, fname, cargs = call.func.value, "meth:" + call.func.attr, call.args
+        if not isinstance(recv, ast.Name) or recv.id in self.modules:
+            raise Unsupported("state-changing call %s on something that is not a plain name" % fname)
+        if call.keywords or any(isinstance(a, ast.Starred) for a in call.args):
+            raise Unsupported("keywords / * in a state-changing call")
+        self.ntemp += 1
+        tmp = "$%d" % self.ntemp
+        self.handles.add(recv.id)
+        pre = "SCallSt %s %s %s %s" % (cstr(tmp), cstr(recv.id), cstr(fname), lst([self.expr(a) for a in cargs]))
+        new = ast.copy_location(ast.Name(id=tmp, ctx=ast.Load()), call)
+        if pidx is None:
+            setattr(parent, pfield, new)
+        else:
+            getattr(parent, pfield)[pidx] = new
+        return [pre]
+
+    def effect_call(self, s):
+        """warnings.warn(...) as a statement -> (name with keyword suffix, argument terms)"""
+        c = s.value
+        if not (isinstance(c, ast.Call) and self.dotted(c.func) in EFFECT_CALLS):
+            return None
+        if any(isinstance(a, ast.Starred) for a in c.args) or any(k.arg is None for k in c.keywords):
+            raise Unsupported("* / ** in call")
+        name = self.dotted(c.func) + "".join(",%s=" % k.arg for k in c.keywords)
+        return name, [self.expr(a) for a in c.args] + [self.expr(k.value) for k in c.keywords]
+
+    def mutating_arg_call(self, s):
+        """E.shuffle(x) as a statement, x a local name -> (E, "shuffle", x)"""
+        c = s.value
+        if (isinstance(c, ast.Call) and isinstance(c.func, ast.Attribute) and c.func.attr in MUTATING_ARG_METHODS
+                and self.dotted(c.func) is None):
+            if (len(c.args) == 1 and not c.keywords and isinstance(c.args[0], ast.Name)
+                    and c.args[0].id not in self.modules):
+                return c.func.value, c.func.attr, c.args[0].id
+            raise Unsupported("form of the in-place call " + c.func.attr)
+        return None
+
+    def try_stmt(self, s):
+        if len(s.handlers) != 1 or s.orelse or s.finalbody:
+            raise Unsupported("try form")
+        h = s.handlers[0]
+        if h.name is not None or not isinstance(h.type, ast.Name):
+            raise Unsupported("except form")
+        stored = set()
+        for b in s.body:
+            if isinstance(b, ast.Assign) and len(b.targets) == 1:
+                stored |= set(target_names(b.targets[0]))
+            elif not isinstance(b, (ast.Return, ast.Raise)):
+                raise Unsupported("%s inside try" % type(b).__name__)
+        if any(isinstance(x, (ast.Yield, ast.YieldFrom)) for b in s.body for x in ast.walk(b)):
+            raise Unsupported("yield inside try")
+        loads = lambda nodes: {x.id for b in nodes for x in ast.walk(b)
+                               if isinstance(x, ast.Name) and isinstance(x.ctx, ast.Load)}
+        if loads(h.body) & stored:
+            raise Unsupported("the handler reads %s, assigned in the try body" % sorted(loads(h.body) & stored))
+        rebound = set()
+        for b in h.body:
+            if isinstance(b, ast.Assign) and len(b.targets) == 1 and isinstance(b.targets[0], ast.Name):
+                rebound.add(b.targets[0].id)
+        inside = {id(x) for b in s.body for x in ast.walk(b)}
+        outside = {x.id for x in ast.walk(self.function)
+                   if isinstance(x, ast.Name) and isinstance(x.ctx, ast.Load) and id(x) not in inside}
+        if (stored - rebound) & outside:
+            raise Unsupported("%s: assigned in a try body, not in its handler, and read outside"
+                              % sorted((stored - rebound) & outside))
+        self.catches.append(h.type.id)
+        body = self.stmts(s.body)
+        if "SCallSt " in body:
+            # a state change made before the exception would be rolled back by STry (its handler runs in
+            # the environment the statement started in)
+            raise Unsupported("state-changing call inside try")
+        return "STry %s %s" % (body, self.stmts(h.body))
 
     def append_call(self, s):
         """x.append(e) as a statement, x a local name"""
@@ -344,6 +542,13 @@ class Translator:
         out = []
         for pos_, s in enumerate(body):
             self.cur_state = getattr(s, "_fresh", {})
+            # state-changing method calls are hoisted in front of the statement that starts with them
+            if isinstance(s, (ast.Assign, ast.Expr, ast.Return, ast.AugAssign)):
+                out.extend(self.hoist(s, "value"))
+            elif isinstance(s, ast.If):
+                out.extend(self.hoist(s, "test"))
+            elif isinstance(s, ast.For):
+                out.extend(self.hoist(s, "iter"))
             oc = self.obj_call(s, self.cur_state)
             if oc is not None:
                 # x.m(args) on a fresh local object: x, %r = meth!:m(x, args); target = %r
@@ -384,6 +589,11 @@ class Translator:
                     if not (isinstance(t.value, ast.Name) and t.value.id == "self"):
                         raise Unsupported("attribute assignment on something other than self")
                     out.append("SSetAttr %s %s %s" % (cstr("self"), cstr(t.attr), self.expr(s.value)))
+                    continue
+                if flat_fill_target(t) is not None:
+                    x = flat_fill_target(t)
+                    out.append("SAssign %s (ECall %s %s)" % (lst([cstr(x)]), cstr("fill_flat"),
+                                                             lst(["(EVar %s)" % cstr(x), self.expr(s.value)])))
                     continue
                 if isinstance(t, ast.Subscript):
                     if not isinstance(t.value, ast.Name):
@@ -434,6 +644,20 @@ class Translator:
                 out.append("SReturn %s" % (self.expr(s.value) if s.value is not None else "(EConst VNone)"))
             elif isinstance(s, ast.Pass):
                 out.append("SPass")
+            elif isinstance(s, ast.Expr) and isinstance(s.value, ast.Yield):
+                if s.value.value is None:
+                    raise Unsupported("bare yield")
+                self.is_generator = True
+                out.append("SYield %s" % self.expr(s.value.value))
+            elif isinstance(s, ast.Expr) and self.effect_call(s) is not None:
+                name, args = self.effect_call(s)
+                out.append("SLog %s %s" % (cstr(name), lst(args)))
+            elif isinstance(s, ast.Expr) and self.mutating_arg_call(s) is not None:
+                recv, meth, x = self.mutating_arg_call(s)
+                out.append("SAssign %s (ECall %s %s)" % (lst([cstr(x)]), cstr("meth:" + meth),
+                                                         lst([self.expr(recv), "(EVar %s)" % cstr(x)])))
+            elif isinstance(s, ast.Try):
+                out.append(self.try_stmt(s))
             elif isinstance(s, ast.Expr):
                 ap = self.append_call(s)
                 sm = self.self_method_call(s)
@@ -446,6 +670,16 @@ class Translator:
             else:
                 raise Unsupported(type(s).__name__)
         return lst(out)
+
+
+def flat_fill_target(t):
+    """x.ravel()[:] = ...  ->  x"""
+    if (isinstance(t, ast.Subscript) and isinstance(t.slice, ast.Slice) and t.slice.lower is None
+            and t.slice.upper is None and t.slice.step is None and isinstance(t.value, ast.Call)
+            and isinstance(t.value.func, ast.Attribute) and t.value.func.attr == "ravel"
+            and not t.value.args and not t.value.keywords and isinstance(t.value.func.value, ast.Name)):
+        return t.value.func.value.id
+    return None
 
 
 def target_names(t):
@@ -492,7 +726,7 @@ def all_target_names(t):
 # are joined by intersection, loop bodies are iterated to a fixed point, and a loop body may not mutate
 # a name that occurs in the loop's iterable.
 FRESH_LIST_CALLS = {"list"}
-FRESH_ARRAY_CALLS = {"np.array"}
+FRESH_ARRAY_CALLS = {"np.array", "np.unique"}      # always return a new array
 FRESH_ARRAY_CALLS_KW = {"np.zeros", "np.empty"}     # fresh also when called with keywords (dtype=)
 
 
@@ -515,6 +749,8 @@ class Fresh:
                 return "list"
             if self.tr.dotted(e.func) in FRESH_ARRAY_CALLS:
                 return "array"
+        if isinstance(e, ast.Call) and self.tr.dotted(e.func) == "np.empty":
+            return "array"       # also with dtype= / order= keywords
         return None
 
     def escaping(self, e, out):
@@ -537,6 +773,8 @@ class Fresh:
         elif (isinstance(e, ast.Call) and isinstance(e.func, ast.Name) and e.func.id == "len" and len(e.args) == 1
               and isinstance(e.args[0], ast.Name) and not e.keywords):
             pass
+        elif isinstance(e, ast.Attribute) and isinstance(e.value, ast.Name) and e.attr in ("size", "shape", "ndim"):
+            pass                 # reading a number / a tuple of numbers: no alias
         else:
             for c in ast.iter_child_nodes(e):
                 self.escaping(c, out)
@@ -605,6 +843,9 @@ class Fresh:
                 self.escaping(s.value, esc)
                 if isinstance(t, ast.Attribute):
                     self.drop(state, esc)      # self.a = v: v escapes into the object
+                elif flat_fill_target(t) is not None:
+                    self.drop(state, esc)
+                    self.need(state, flat_fill_target(t), ("array",), frozen, "filling through ravel()")
                 elif isinstance(t, ast.Subscript):
                     self.escaping(t.slice, esc)
                     x = t.value.id
@@ -617,6 +858,11 @@ class Fresh:
                     k = self.kind(s.value)
                     if k is not None and len(names) == 1:
                         state[names[0]] = k
+                    elif (isinstance(s.value, (ast.Tuple, ast.List)) and len(s.value.elts) == len(names) > 1
+                          and len(set(names)) == len(names)):
+                        for nm, el in zip(names, s.value.elts):       # a, b = [], []: each a fresh object
+                            if self.kind(el) in ("list", "array"):
+                                state[nm] = self.kind(el)
             elif isinstance(s, ast.AugAssign):
                 self.escaping(s.value, esc)
                 if isinstance(s.target, ast.Subscript):
@@ -651,6 +897,19 @@ class Fresh:
                         break
                     state.clear()
                     state.update(joined)
+            elif isinstance(s, ast.Try):
+                a = dict(state)
+                self.block(s.body, a, frozen)
+                b = dict(state)
+                for h in s.handlers:
+                    self.block(h.body, b, frozen)
+                state.clear()
+                state.update(self.join(a, b))
+            elif isinstance(s, ast.Expr) and self.tr.mutating_arg_call(s) is not None:
+                recv, meth, x = self.tr.mutating_arg_call(s)
+                self.escaping(recv, esc)
+                self.drop(state, esc)
+                self.need(state, x, ("list", "array"), frozen, "in-place " + meth)
             elif isinstance(s, ast.Expr):
                 ap = self.tr.append_call(s)
                 if ap is not None:
@@ -740,11 +999,49 @@ def translate(path, names):
             tr.function = n
             tr.locals = set(params) | {x.id for x in ast.walk(n) if isinstance(x, ast.Name) and isinstance(x.ctx, ast.Store)}
             tr.cur_state = {}
+            tr.handles = set()
+            tr.ntemp = 0
+            tr.catches = []
+            tr.is_generator = False
+            if any(isinstance(x, ast.YieldFrom) for x in ast.walk(n)):
+                raise Unsupported("yield from")
+            nyield = sum(isinstance(x, ast.Yield) for x in ast.walk(n))
             Fresh(tr).block([s for s in n.body], {}, frozenset())     # also records the state at each statement
             body = tr.stmts(n.body)
+            if nyield != body.count("SYield "):
+                raise Unsupported("yield used as an expression")
+            if nyield and any(isinstance(x, ast.Return) for x in ast.walk(n)):
+                raise Unsupported("return inside a generator")
+            for h in tr.handles:
+                # a handle is a parameter, or a local assigned exactly once, at the top level of the function
+                # and before any loop, the result of a call (a new object: a generator); once its
+                # state-changing calls are hoisted it occurs nowhere else (no alias)
+                occ = [x for x in ast.walk(n) if isinstance(x, ast.Name) and x.id == h]
+                if h in params:
+                    if occ:
+                        raise Unsupported("%s has state-changing calls and is also used otherwise (possible alias)" % h)
+                else:
+                    tops = [b for b in n.body if isinstance(b, ast.Assign) and len(b.targets) == 1
+                            and isinstance(b.targets[0], ast.Name) and b.targets[0].id == h
+                            and isinstance(b.value, ast.Call)]
+                    if len(occ) != 1 or len(tops) != 1 or occ[0] is not tops[0].targets[0]:
+                        raise Unsupported("state-changing calls on %s, which is neither a parameter nor a local "
+                                          "bound once to the result of a call and used for nothing else" % h)
+            if len(tr.handles) > 1:
+                raise Unsupported("several stateful parameters (they could be the same object)")
             ident = qual.replace(".", "_")
             found[qual] = "Definition src_%s : func :=\n  {| f_params := %s;\n     f_body := %s |}.\n" % (
                 ident, lst([cstr(p) for p in params]), body)
+            # the exception classes of the function's `raise` statements, in source order (PyLite has one
+            # exception; templates that care compare this list)
+            classes = []
+            for x in ast.walk(n):
+                if isinstance(x, ast.Raise):
+                    exc = x.exc.func if isinstance(x.exc, ast.Call) else x.exc
+                    classes.append(exc.id if isinstance(exc, ast.Name) else "?")
+            found[qual] += "Definition raises_%s : list string := %s.\n" % (ident, lst([cstr(c) for c in classes]))
+            if tr.catches:
+                found[qual] += "Definition catches_%s : list string := %s.\n" % (ident, lst([cstr(c) for c in tr.catches]))
             # default values of the trailing parameters (constants only; a function with any other
             # default gets no defaults_ definition, so a proof that needs it fails closed)
             try:
